@@ -246,6 +246,9 @@ def pc_post(I, outcome, ctx):
     rejected = z3.And(fw.t != core.null(), z3.Not(acc)) if acc is not None else z3.BoolVal(False)
     I.oblige('rejected_event_is_never_dispatched', z3.Implies(rejected, z3.BoolVal(len(fired) == 0)),
              detail='an event refused by the receive firewall is not fired locally')
+    if acc is None:
+        I.oblige('configured_receive_firewall_is_consulted', fw.t == core.null(),
+                 detail='a receive firewall is configured but the event was handled without asking it')
     I.oblige('accepted_event_dispatched_exactly_once', z3.Implies(z3.Not(rejected), z3.BoolVal(len(fired) == 1 and len(results) == 0)))
     if acc is not None:
         fwc = log(I, 'FIREWALL')
@@ -310,6 +313,10 @@ def sd_post(I, outcome, ctx):
     rejected = z3.And(fw.t != core.null(), z3.Not(acc)) if acc is not None else z3.BoolVal(False)
     I.oblige('rejected_event_is_never_transmitted', z3.Implies(rejected, z3.BoolVal(len(sent) == 0)),
              detail='an event refused by the send firewall never reaches the wire')
+    if acc is None:
+        # the firewall was not asked at all on this path: allowed only when none is configured
+        I.oblige('configured_send_firewall_is_consulted', fw.t == core.null(),
+                 detail='a send firewall is configured but the event was transmitted (or dropped) without asking it')
     I.oblige('accepted_event_transmitted_exactly_once', z3.Implies(z3.Not(rejected), z3.BoolVal(len(sent) == 1)))
     if sent:
         cover(I, 'sent')
